@@ -28,8 +28,8 @@ def prepare():
         if not os.path.isdir(wt):
             subprocess.run(["git", "-C", base, "worktree", "add", "-q", "--detach", wt, head], check=True)
         else:
-            subprocess.run(["git", "-C", wt, "checkout", "-q", "--detach", head], check=True)
-            subprocess.run(["git", "-C", wt, "checkout", "--", "."], check=True)
+            subprocess.run(["git", "-C", wt, "reset", "-q", "--hard"], check=True)
+            subprocess.run(["git", "-C", wt, "checkout", "-q", "-f", "--detach", head], check=True)
     rc, out = sh([os.path.join(RUN, "check"), "setup"], cwd=RUN, timeout=3600)
     assert rc == 0, out[-2000:]
 
